@@ -38,13 +38,26 @@ Definition judge (cs : case) : list verdict :=
      let before := knob_default k (a_knob a) in
      let after := raw_knob (ao_knob_after o) in
      let eff := if ao_wrote o then after else before in
-     [ clause_known "C01_write_within_step" "C01:F12" (f12_region a)
+     (* a known finding excuses a failing clause only when the implementation does exactly what the faithful model (which
+        embodies the finding) does; a different behaviour inside the same region is a different violation *)
+     let as_model := corresponds a o in
+     [ clause_known "C01_write_within_step" "C01:F12" (f12_region a && as_model)
          (negb (ao_wrote o) || within_step a step after);
-       clause_known "C01_write_never_moves_back" "C01:F12" (f12_region a)
+       clause_known "C01_write_never_moves_back" "C01:F12" (f12_region a && as_model)
          (negb (ao_wrote o) || (exposed k before (a_n a) <=? exposed k after (a_n a)));
-       (if f1_region a then clause_known "C07_target_suffices" "C07:F1" true (suffices a (ao_desired o) eff)
-        else if f12_region a then clause_known "C07_target_suffices" "C07:F12" true (suffices a (ao_desired o) eff)
-        else if f21_region a then clause_known "C07_target_suffices" "C07:F21" true (suffices a (ao_desired o) eff)
+       (* C11: the readiness target is what the batch calls for: at least the step's share of the workload, rounded UP and
+          capped at the workload's size (no pods are excused by rounding).  With no-need-update pods (rollback in batches) the
+          target is reduced on purpose, so the clause is about ordinary batches *)
+       clause "C11_readiness_target_is_what_the_batch_calls_for"
+         (match a_noneed a with
+          | Some _ => true
+          | None => (match k with
+                     | DeployPartK | BGDeployK => new_rs_limit step (a_n a)   (* Deployments keep one old pod below 100% by design *)
+                     | _ => Z.min (a_n a) (scaled true step (a_n a)) end) <=? ao_desired o
+          end);
+       (if f1_region a then clause_known "C07_target_suffices" "C07:F1" as_model (suffices a (ao_desired o) eff)
+        else if f12_region a then clause_known "C07_target_suffices" "C07:F12" as_model (suffices a (ao_desired o) eff)
+        else if f21_region a then clause_known "C07_target_suffices" "C07:F21" as_model (suffices a (ao_desired o) eff)
         else clause "C07_target_suffices" (suffices a (ao_desired o) eff)) ]
    end).
 
